@@ -529,6 +529,19 @@ func c15RenderLines(r c15R, entries []string, dup func(string) string, crlfOK bo
 	return text, "pad=" + padMode + ",eol=" + eolMode + ",final=" + final
 }
 
+// c15LongLine puts a comment line longer than 64 KiB (bufio.Scanner's default token limit) after the first
+// line of every 24th data file: the entries after it must still count.
+func c15LongLine(r c15R, f, style string) (string, string) {
+	if r.IntN(24) != 0 {
+		return f, style
+	}
+	i := strings.IndexByte(f, '\n')
+	if i < 0 {
+		return f, style
+	}
+	return f[:i+1] + "#" + strings.Repeat("c", 66000+r.IntN(3000)) + "\n" + f[i+1:], style + ",longline"
+}
+
 func c15GenPm(r c15R, op string, safe bool, serial int) *c15Spec {
 	s := &c15Spec{Op: op, Capture: r.IntN(3) == 0}
 	switch op {
@@ -546,6 +559,7 @@ func c15GenPm(r c15R, op string, safe bool, serial int) *c15Spec {
 			lines[i] = string(p)
 		}
 		f, style := c15RenderLines(r, lines, func(e string) string { return c15FlipCase(r, e) }, true)
+		f, style = c15LongLine(r, f, style)
 		fc := c15S(f)
 		s.File, s.FileStyle = &fc, style
 		s.Arg = c15S(fmt.Sprintf("c15_pm_%d.data", serial))
@@ -742,6 +756,7 @@ func c15GenIP(r c15R, op string, serial int) *c15Spec {
 		s.Arg = c15S(strings.Join(s.Entries, sep))
 	case "ipMatchFromFile", "ipMatchF":
 		f, style := c15RenderLines(r, s.Entries, func(e string) string { return e }, true)
+		f, style = c15LongLine(r, f, style)
 		fc := c15S(f)
 		s.File, s.FileStyle = &fc, style
 		s.Arg = c15S(fmt.Sprintf("c15_ip_%d.data", serial))
